@@ -13,6 +13,7 @@ import OciModel.Driver.WrapRO
 import OciModel.Driver.AuthFile
 import OciModel.Driver.Conc
 import OciModel.Driver.BlobReader
+import OciModel.Driver.TokenDecode
 import OciModel.Driver.Unify
 import OciModel.Driver.UnifyID
 import OciModel.Driver.Wire
@@ -60,6 +61,7 @@ def step (st : DState) (line : String) : DState × String :=
   | "uid" :: rest => (st, OciModel.Driver.UnifyID.drive rest)
   | "dbg" :: rest => (st, OciModel.Driver.Iter.drive rest)
   | "uconc" :: rest => (st, OciModel.Driver.UnifyConc.drive rest)
+  | "tokdec" :: rest => (st, OciModel.Driver.TokenDecode.drive rest)
   | "rd" :: rest => (st, OciModel.Driver.BlobReader.drive rest)
   | "re" :: rest => (st, OciModel.Driver.BlobReader.drive rest)   -- the last chunk arrives with io.EOF: same contract
   | "rq" :: rest => (st, OciModel.Driver.BlobReader.driveAsked rest)
